@@ -60,6 +60,11 @@ def check(case, sub="solve"):
     with warnings.catch_warnings():
         warnings.simplefilter("ignore")
         results = guarded(sub, icls, solver.solve)
+        if case.get("seed", 0) % 4 == 0:
+            # the same solver object asked again (same global seed): the entries examined below are those of the second call
+            np.random.seed(case.get("seed", 0))
+            results = guarded(sub, icls + ":second_solve", solver.solve)
+            cl.append("second_solve_on_same_object")
     if not results:
         raise Violation(sub, "no-result", "AlternateTargetSolver", icls, "empty result list")
     T = rg.adj_from_mask(n, mask)  # by position; position i carries label labels[i]
